@@ -169,6 +169,32 @@ def run(ctx):
             ctx.fail('athlib.athlon_score', [g_, e, v, a, esaa], mo, im,
                      note=('age' if a else ('int-form' if isinstance(v, int) else 'float-form')) + '; preceding calls in this run: %r; last call made with a non-numeric mark before it: %s' % (prev, lastfault),
                      replay_py=('try: %s\nexcept Exception: pass\n' % lastfault if lastfault else '') + 'result = athlib.athlon_score(%r, %r, %r, age=%r, esaa=%r)' % (g_, e, v, a, esaa))
+    # ---- the age-factor table itself against the specification-side copy (the model reads the tree's own JSON)
+    import wma_pinned
+    dd = [d for d in wma_pinned.diffs(vlib.REPO) if d[0] == 'wma-athlons-data.json']
+    ctx.oblig('spec:combined-events age factors of the tree = the pinned copy of the published table', 'correspondence', not dd,
+              '' if not dd else '%d cells / rows differ, e.g. %r' % (len(dd), dd[0]))
+    if dd:
+        pa = wma_pinned.load_pinned()['wma-athlons-data.json']['ages']
+        from fractions import Fraction
+        for f_, g_, ev_, k_, pv_, lv_ in dd[:40]:
+            if g_ is None or ev_ is None or k_ is None or k_ - 1 >= len(pa) or isinstance(pv_, str) or pv_ is None: continue
+            age_ = pa[k_ - 1]
+            if age_ < 35: continue
+            r_ = rowmap.get(('%s-%s' % (g_, ev_)).upper())
+            if r_ is None: continue
+            kind_ = AC.kind_of(codes, ev_)
+            # a mark on the scoring side, scored in exact arithmetic with the PUBLISHED factor
+            for kmark in ([r_.z100 * 7 // 10, r_.z100 * 9 // 10] if kind_ == 'track' else [r_.z100 * 3 // 100, r_.z100 * 2 // 100] if kind_ == 'jump' else [r_.z100 * 4, r_.z100 * 8]):
+                want_ = AC.exact_points(r_, kind_, AC.exact_adjust(kind_, kmark, Fraction(str(pv_))))
+                if want_ <= 0: continue
+                got_ = AC.canon(lambda: athlib.athlon_score(g_.upper(), ev_, kmark / 100.0, age=age_))
+                if got_ != 'p %d' % want_:
+                    ctx.fail('athlib.athlon_score', [g_.upper(), ev_, kmark / 100.0, age_, False],
+                             'p %d: the score with the published age factor %r for age %d (table row %s, column %d; the tree has %r)' % (want_, pv_, age_, ev_, k_, lv_),
+                             got_, note='table-cell: the age-factor table of the tree differs from the published table',
+                             replay_py='result = (athlib.wma_athlon_age_factor(%r, %r, %r), athlib.athlon_score(%r, %r, %r, age=%r))' % (g_, age_, ev_, g_.upper(), ev_, kmark / 100.0, age_))
+                break
     ctx.stats['disagreements'] = nd
     ctx.stats['nontrivial_lines'] = nont
     ctx.distinct = set(range(nont))
